@@ -1,12 +1,14 @@
 package main
 
 import (
+	"crypto/ecdsa"
 	"fmt"
 	"math/rand"
 	"sort"
 	"time"
 
 	"github.com/mosaicnetworks/babble/src/common"
+	"github.com/mosaicnetworks/babble/src/crypto/keys"
 	hg "github.com/mosaicnetworks/babble/src/hashgraph"
 	"github.com/mosaicnetworks/babble/src/peers"
 )
@@ -52,9 +54,46 @@ type admModel struct {
 	rep     map[string]bool      // creators in the repertoire
 }
 
+// harnessVerify checks the event's signature against its stated creator and
+// every membership request's signature against the peer it concerns, with the
+// harness's own use of the signature primitives (not Event.Verify, which is
+// part of what is being judged).
+func harnessVerify(ev *hg.Event) (ok bool) {
+	defer func() {
+		if r := recover(); r != nil {
+			ok = false
+		}
+	}()
+	check := func(pub []byte, hash []byte, sig string) bool {
+		r, s, err := keys.DecodeSignature(sig)
+		if err != nil || r == nil || s == nil {
+			return false
+		}
+		pk := keys.ToPublicKey(pub)
+		if pk == nil || pk.X == nil || pk.Y == nil {
+			return false
+		}
+		return ecdsa.Verify(pk, hash, r, s)
+	}
+	for i := range ev.Body.InternalTransactions {
+		itx := &ev.Body.InternalTransactions[i]
+		h, err := itx.Body.Hash()
+		if err != nil {
+			return false
+		}
+		if !check(itx.Body.Peer.PubKeyBytes(), h, itx.Signature) {
+			return false
+		}
+	}
+	h, err := ev.Body.Hash()
+	if err != nil {
+		return false
+	}
+	return check(ev.Body.Creator, h, ev.Signature)
+}
+
 func (m *admModel) admissible(ev *hg.Event) (bool, string) {
-	ok, err := safeVerify(ev)
-	if err != nil || !ok {
+	if !harnessVerify(ev) {
 		return false, "signature or membership-request signature invalid"
 	}
 	c := ev.Creator()
@@ -241,6 +280,30 @@ func tamperings(rng *rand.Rand, d *Dag, m *admModel, c *DagEvent, stranger *SimK
 	mk("leave request for another validator signed by the creator, event re-signed", func(b *hg.EventBody) {
 		itx := hg.NewInternalTransactionLeave(*d.Peers[(c.Creator+1)%d.N])
 		itx.Sign(key)
+		b.InternalTransactions = append(b.InternalTransactions, itx)
+	}, true, nil)
+	// requests about the event's own creator (the shape of a leave request, or of
+	// a validator asking to be added again) whose signature is not the creator's
+	self := *d.Peers[c.Creator]
+	mk("leave request about the creator itself signed by an unrelated key, event re-signed", func(b *hg.EventBody) {
+		itx := hg.NewInternalTransactionLeave(self)
+		itx.Sign(stranger.K)
+		b.InternalTransactions = append(b.InternalTransactions, itx)
+	}, true, nil)
+	mk("leave request about the creator itself with signature 1|1, event re-signed", func(b *hg.EventBody) {
+		itx := hg.NewInternalTransactionLeave(self)
+		itx.Signature = "1|1"
+		b.InternalTransactions = append(b.InternalTransactions, itx)
+	}, true, nil)
+	mk("join request about the creator itself signed by another validator, event re-signed", func(b *hg.EventBody) {
+		itx := hg.NewInternalTransactionJoin(self)
+		itx.Sign(d.Keys[(c.Creator+1)%d.N])
+		b.InternalTransactions = append(b.InternalTransactions, itx)
+	}, true, nil)
+	mk("leave request about the creator itself, signed, then its peer address altered, event re-signed", func(b *hg.EventBody) {
+		itx := hg.NewInternalTransactionLeave(self)
+		itx.Sign(key)
+		itx.Body.Peer.NetAddr = "elsewhere:1"
 		b.InternalTransactions = append(b.InternalTransactions, itx)
 	}, true, nil)
 	mk("unsigned join request, event re-signed", func(b *hg.EventBody) {
